@@ -426,6 +426,20 @@ fn check(sc: &LockScen, final_value: u32) {
                 if !prober_reads {
                     continue;
                 }
+                // the refusal proves a queued writer only if a write acquisition is in flight and no
+                // writer has held the lock so far: the tail of a previous writer's unlock (flag
+                // repair under the list lock) also changes the state word and makes the strong CAS
+                // of try_read fail although nobody is queued
+                let call_i = log[..i].iter().rposition(|x| x.t == e.t && x.ret.is_none()).unwrap_or(i);
+                let writer_in_flight = log[..call_i].iter().enumerate().any(|(k, x)| {
+                    x.ret.is_none()
+                        && matches!(x.op, Op::Write | Op::WriteAsync | Op::WritePoll | Op::FutAwait)
+                        && !log[k + 1..i].iter().any(|y| y.t == x.t && y.ret.is_some())
+                });
+                let writer_before = holds.iter().any(|h| h.mode == Mode::Excl && h.from < i);
+                if !writer_in_flight || writer_before {
+                    continue;
+                }
                 let first_writer = holds.iter().filter(|h| h.mode == Mode::Excl && h.from > i).map(|h| h.from).min().unwrap_or(usize::MAX);
                 for h in holds.iter().filter(|h| h.mode == Mode::Shared && h.call > i && h.from < first_writer) {
                     oracle_fail(
@@ -459,10 +473,36 @@ fn sc(name: &str, rw: bool, threads: Vec<Vec<LStep>>, pb: (Option<usize>, Option
     }
 }
 
+/// both orientations of the asymmetric two-thread shapes (see scen.rs: loom's bounded DPOR is
+/// biased towards the main thread running first)
+fn with_swaps(v: Vec<Scenario>) -> Vec<Scenario> {
+    let mut out = Vec::new();
+    for s in v {
+        let swapped = match &s.body {
+            Body::Lock(l) if l.threads.len() == 2 && l.threads[0] != l.threads[1] && !l.threads.iter().any(|t| t.contains(&LStep::JoinAll)) => {
+                let mut l2 = l.clone();
+                l2.threads.swap(0, 1);
+                Some(Scenario { name: format!("{}@swap", s.name), body: Body::Lock(l2), ..s.clone() })
+            }
+            _ => None,
+        };
+        out.push(s);
+        if let Some(x) = swapped {
+            out.push(x);
+        }
+    }
+    out
+}
+
 pub fn scenarios() -> Vec<Scenario> {
+    with_swaps(base_scenarios())
+}
+
+fn base_scenarios() -> Vec<Scenario> {
     use LStep::*;
-    let t2 = (Some(2), Some(3));
-    let t3 = (Some(1), Some(2));
+    let t2 = (Some(2), Some(4));
+    // three lock threads at bound 2 exceed 1.4 M executions (10 min): bound 1 in both tiers
+    let t3 = (Some(1), Some(1));
     let cs = |a: LStep| vec![a, Touch, Unlock];
     let cs2 = |a: LStep| vec![a.clone(), Touch, Unlock, a, Touch, Unlock];
     vec![
